@@ -142,9 +142,15 @@ def run(tier, chk):
     lines = asmlib.canon_lines(chk)
     outs = asmlib.run_asm([('intel', asm_text.render(l['intel'])) for l in lines])
     canon_out = {l['id']: o for l, o in zip(lines, outs)}
-    sel = select(lines, outs, 1400 if quick else 9000, rnd)
+    sel = select(lines, outs, 1400 if quick else 5000, rnd)
     sts, r = asmlib.spell(sel, 2 if quick else 3, asmlib.ALL_ACTS, chk=chk)
+    chk.cov['lines_spelled'] = len(sel)
     recs = observe(sel, canon_out, sts)
+    # the AT&T transliteration of every other plausible accepted line (layouts cached with the canonical lines)
+    insel = set(l['id'] for l in sel)
+    rest = [l for l, o in zip(lines, outs) if o['st'] == 'list' and o['c'] and l['plaus'] and 'att' in l and l['id'] not in insel]
+    recs += observe(rest, canon_out, [{'lid': l['id'], 'pres': dict(PRES0, syn='att', pct=True), 'line': l['att']} for l in rest])
+    sel = sel + rest
     nsp = sum(len(x['evs']) - 1 for x in recs)
     chk.cov['evaluations'] = nsp + len(lines)
     chk.cov['distinct_nontrivial'] = nsp
@@ -153,7 +159,6 @@ def run(tier, chk):
                        'whose text differs from the canonical text of an accepted line')
     chk.cov['canonical_lines'] = len(lines)
     chk.cov['canonical_accepted'] = sum(1 for o in outs if o['st'] == 'list' and o['c'])
-    chk.cov['lines_spelled'] = len(sel)
     chk.cov['spellings_by_action'] = dict(collections.Counter(a.split('=')[0] for x in recs for acts in x['acts'] for a in acts))
     chk.cov['spec_invariant'] = 'DenoteOK checked by TLC on %d generated (line, presentation) states' % r.distinct
     judged = [strip(x) for x in recs]
